@@ -282,3 +282,460 @@ Proof.
   specialize (Hsa _ eq_refl). clear E7.
   apply strip_prefix_le in H. pose proof (skip_spaces_length s7). lia.
 Qed.
+
+(** * The recursive functions return a shorter rest *)
+
+Lemma parse_attrs_rest : forall f s l e r,
+  parse_attrs f s = POk (l, e, r) -> length r < length s.
+Proof.
+  induction f as [|f IH]; intros s l e r H; cbn [parse_attrs] in H; [discriminate|].
+  pose proof (skip_spaces_length s) as Hs.
+  destruct (skip_spaces s) as [|b r0]; [discriminate|]. cbn [length] in Hs.
+  destruct (b =? 47)%N.
+  { destruct r0 as [|c r1]; [discriminate|].
+    num_cases H c. inversion H; subst. cbn [length] in Hs. lia. }
+  destruct (b =? 62)%N.
+  { inversion H; subst. lia. }
+  destruct (negb (starts_with_space s)); [discriminate|].
+  destruct (scan_attribute (b :: r0)) as [[[[p l0] v] rest]|] eqn:Ea;
+    cbn [of_opt pbind] in H; [|discriminate].
+  apply scan_attribute_rest in Ea. cbn [length] in Ea.
+  destruct (normalize_attr v) as [v'|]; cbn [of_opt pbind] in H; [|discriminate].
+  destruct (parse_attrs f rest) as [[[l' e'] rest']| |] eqn:Ep; cbn [pbind] in H; try discriminate.
+  inversion H; subst. apply IH in Ep. lia.
+Qed.
+
+Lemma parse_misc_rest : forall f s l r,
+  parse_misc f s = POk (l, r) -> length r <= length s.
+Proof.
+  induction f as [|f IH]; intros s l r H; cbn [parse_misc] in H; [discriminate|].
+  pose proof (skip_spaces_length s) as Hs.
+  destruct (strip_prefix s_comment_open (skip_spaces s)) as [r0|] eqn:E1.
+  { apply strip_prefix_le in E1.
+    destruct (parse_comment r0) as [[c rest]|] eqn:Ec; cbn [of_opt pbind] in H; [|discriminate].
+    apply parse_comment_rest in Ec.
+    destruct (parse_misc f rest) as [[l' rest']| |] eqn:Ep; cbn [pbind] in H; try discriminate.
+    inversion H; subst. apply IH in Ep. lia. }
+  destruct (strip_prefix s_pi_open (skip_spaces s)) as [r0|] eqn:E2.
+  { apply strip_prefix_le in E2.
+    destruct (parse_pi r0) as [[c rest]|] eqn:Ec; cbn [of_opt pbind] in H; [|discriminate].
+    apply parse_pi_rest in Ec.
+    destruct (parse_misc f rest) as [[l' rest']| |] eqn:Ep; cbn [pbind] in H; try discriminate.
+    inversion H; subst. apply IH in Ep. lia. }
+  inversion H; subst. exact Hs.
+Qed.
+
+(** [parse_element_with]: the rest is shorter when [content] does not lengthen *)
+Lemma parse_element_with_rest_gen : forall content ps s n cnt r,
+  (forall sc p l s' ch c r', content sc p l s' = POk (ch, c, r') -> length r' <= length s') ->
+  parse_element_with content ps s = POk (n, cnt, r) -> length r < length s.
+Proof.
+  intros content ps s n cnt r Hc H. unfold parse_element_with in H.
+  destruct (scan_qname s) as [[[prefix local] r0]|] eqn:Eq; cbn [of_opt pbind] in H; [|discriminate].
+  apply scan_qname_rest in Eq.
+  destruct (xstr_eqb prefix s_xmlns); [discriminate|].
+  destruct (parse_attrs (S (length r0)) r0) as [[[raw e] rest]| |] eqn:Ea;
+    cbn [pbind] in H; try discriminate.
+  apply parse_attrs_rest in Ea.
+  destruct (split_attrs raw [] []) as [[own plain]|]; cbn [of_opt pbind] in H; [|discriminate].
+  destruct (resolve_attrs (resolve_scope ps own) plain []) as [attrs|];
+    cbn [of_opt pbind] in H; [|discriminate].
+  destruct (ns_by_prefix prefix (resolve_scope ps own)) as [ns|];
+    cbn [of_opt pbind] in H; [|discriminate].
+  destruct e.
+  - inversion H; subst. lia.
+  - destruct (content (resolve_scope ps own) prefix local rest) as [[[ch c] rest']| |] eqn:Ec;
+      cbn [pbind] in H; try discriminate.
+    inversion H; subst. apply Hc in Ec. lia.
+Qed.
+
+Lemma parse_content_rest : forall f sc pp pl s ch cnt r,
+  parse_content f sc pp pl s = POk (ch, cnt, r) -> length r < length s.
+Proof.
+  induction f as [|f IH]; intros sc pp pl s ch cnt r H; cbn [parse_content] in H; [discriminate|].
+  destruct s as [|b s']; [discriminate|].
+  destruct (b =? 60)%N eqn:Eb.
+  - destruct s' as [|c r2]; [discriminate|].
+    destruct (c =? 33)%N.
+    { destruct (strip_prefix s_dashdash r2) as [r3|] eqn:E1.
+      - apply strip_prefix_le in E1.
+        destruct (parse_comment r3) as [[n rest]|] eqn:Ec; cbn [of_opt pbind] in H; [|discriminate].
+        apply parse_comment_rest in Ec.
+        destruct (parse_content f sc pp pl rest) as [[[ch' cnt'] rest']| |] eqn:Ep;
+          cbn [pbind] in H; try discriminate.
+        inversion H; subst. apply IH in Ep. cbn [length]. lia.
+      - destruct (strip_prefix s_cdata_open r2) as [r3|] eqn:E2; [|discriminate].
+        apply strip_prefix_le in E2.
+        destruct (scan_until s_cdata_end r3) as [[t rest]|] eqn:Ec;
+          cbn [of_opt pbind] in H; [|discriminate].
+        apply scan_until_le in Ec.
+        destruct (parse_content f sc pp pl rest) as [[[ch' cnt'] rest']| |] eqn:Ep;
+          cbn [pbind] in H; try discriminate.
+        inversion H; subst. apply IH in Ep. cbn [length]. lia. }
+    destruct (c =? 63)%N.
+    { destruct (parse_pi r2) as [[n rest]|] eqn:Ec; cbn [of_opt pbind] in H; [|discriminate].
+      apply parse_pi_rest in Ec.
+      destruct (parse_content f sc pp pl rest) as [[[ch' cnt'] rest']| |] eqn:Ep;
+        cbn [pbind] in H; try discriminate.
+      inversion H; subst. apply IH in Ep. cbn [length]. lia. }
+    destruct (c =? 47)%N.
+    { destruct (scan_qname r2) as [[[p l] r3]|] eqn:Eq; cbn [of_opt pbind] in H; [|discriminate].
+      apply scan_qname_rest in Eq.
+      pose proof (skip_spaces_length r3) as Hs.
+      destruct (skip_spaces r3) as [|d rest]; [discriminate|].
+      num_cases H d.
+      destruct (xstr_eqb p pp && xstr_eqb l pl); [|discriminate].
+      inversion H; subst. cbn [length] in *. lia. }
+    destruct (parse_element_with (parse_content f) (Some sc) (c :: r2)) as [[[n c1] rest]| |] eqn:Ee;
+      cbn [pbind] in H; try discriminate.
+    apply parse_element_with_rest_gen in Ee;
+      [|intros sc0 p0 l0 s0 ch0 c0 r0 H0; apply IH in H0; lia].
+    destruct (parse_content f sc pp pl rest) as [[[ch' cnt'] rest']| |] eqn:Ep;
+      cbn [pbind] in H; try discriminate.
+    inversion H; subst. apply IH in Ep. cbn [length] in *. lia.
+  - destruct (scan_text (b :: s')) as [[t rest]|] eqn:Et; cbn [of_opt pbind] in H; [|discriminate].
+    apply scan_text_le in Et.
+    destruct (contains s_cdata_end t); [discriminate|].
+    destruct (process_text t) as [t'|]; cbn [of_opt pbind] in H; [|discriminate].
+    destruct (parse_content f sc pp pl rest) as [[[ch' cnt'] rest']| |] eqn:Ep;
+      cbn [pbind] in H; try discriminate.
+    inversion H; subst. apply IH in Ep. lia.
+Qed.
+
+Lemma parse_element_with_rest : forall f ps s n cnt r,
+  parse_element_with (parse_content f) ps s = POk (n, cnt, r) -> length r < length s.
+Proof.
+  intros f ps s n cnt r H. apply parse_element_with_rest_gen in H; [exact H|].
+  intros sc p l s' ch c r' H0. apply parse_content_rest in H0. lia.
+Qed.
+
+Lemma parse_element_rest : forall f ps s n cnt r,
+  parse_element f ps s = POk (n, cnt, r) -> length r < length s.
+Proof. intros f ps s n cnt r. unfold parse_element. apply parse_element_with_rest. Qed.
+
+(** * Fuel above the length of the input is never exhausted *)
+
+Lemma parse_attrs_fuel : forall f s, length s < f -> parse_attrs f s <> PFuel.
+Proof.
+  induction f as [|f IH]; intros s Hlt H; [lia|]. cbn [parse_attrs] in H.
+  pose proof (skip_spaces_length s) as Hs.
+  destruct (skip_spaces s) as [|b r0]; [discriminate|]. cbn [length] in Hs.
+  destruct (b =? 47)%N.
+  { destruct r0 as [|c r1]; [discriminate|]. num_cases H c. }
+  destruct (b =? 62)%N; [discriminate|].
+  destruct (negb (starts_with_space s)); [discriminate|].
+  destruct (scan_attribute (b :: r0)) as [[[[p l0] v] rest]|] eqn:Ea;
+    cbn [of_opt pbind] in H; [|discriminate].
+  apply scan_attribute_rest in Ea. cbn [length] in Ea.
+  destruct (normalize_attr v) as [v'|]; cbn [of_opt pbind] in H; [|discriminate].
+  apply pbind_fuel_last in H; [|intros [[l' e'] rest']; discriminate].
+  revert H. apply IH. lia.
+Qed.
+
+Lemma parse_misc_fuel : forall f s, length s < f -> parse_misc f s <> PFuel.
+Proof.
+  induction f as [|f IH]; intros s Hlt H; [lia|]. cbn [parse_misc] in H.
+  pose proof (skip_spaces_length s) as Hs.
+  destruct (strip_prefix s_comment_open (skip_spaces s)) as [r0|] eqn:E1.
+  { apply strip_prefix_le in E1.
+    destruct (parse_comment r0) as [[c rest]|] eqn:Ec; cbn [of_opt pbind] in H; [|discriminate].
+    apply parse_comment_rest in Ec.
+    apply pbind_fuel_last in H; [|intros [l' rest']; discriminate].
+    revert H. apply IH. lia. }
+  destruct (strip_prefix s_pi_open (skip_spaces s)) as [r0|] eqn:E2; [|discriminate].
+  apply strip_prefix_le in E2.
+  destruct (parse_pi r0) as [[c rest]|] eqn:Ec; cbn [of_opt pbind] in H; [|discriminate].
+  apply parse_pi_rest in Ec.
+  apply pbind_fuel_last in H; [|intros [l' rest']; discriminate].
+  revert H. apply IH. lia.
+Qed.
+
+Lemma parse_element_with_fuel : forall content ps s,
+  (forall sc p l s', length s' < length s -> content sc p l s' <> PFuel) ->
+  parse_element_with content ps s <> PFuel.
+Proof.
+  intros content ps s Hc H. unfold parse_element_with in H.
+  destruct (scan_qname s) as [[[prefix local] r0]|] eqn:Eq; cbn [of_opt pbind] in H; [|discriminate].
+  apply scan_qname_rest in Eq.
+  destruct (xstr_eqb prefix s_xmlns); [discriminate|].
+  destruct (parse_attrs (S (length r0)) r0) as [[[raw e] rest]| |] eqn:Ea;
+    cbn [pbind] in H; [|discriminate|].
+  2:{ revert Ea. apply parse_attrs_fuel. lia. }
+  apply parse_attrs_rest in Ea.
+  destruct (split_attrs raw [] []) as [[own plain]|]; cbn [of_opt pbind] in H; [|discriminate].
+  destruct (resolve_attrs (resolve_scope ps own) plain []) as [attrs|];
+    cbn [of_opt pbind] in H; [|discriminate].
+  destruct (ns_by_prefix prefix (resolve_scope ps own)) as [ns|];
+    cbn [of_opt pbind] in H; [|discriminate].
+  destruct e; [discriminate|].
+  apply pbind_fuel_last in H; [|intros [[ch c] rest']; discriminate].
+  revert H. apply Hc. lia.
+Qed.
+
+Lemma parse_content_fuel : forall f sc pp pl s,
+  length s < f -> parse_content f sc pp pl s <> PFuel.
+Proof.
+  induction f as [|f IH]; intros sc pp pl s Hlt H; [lia|]. cbn [parse_content] in H.
+  destruct s as [|b s']; [discriminate|]. cbn [length] in Hlt.
+  destruct (b =? 60)%N eqn:Eb.
+  - destruct s' as [|c r2]; [discriminate|]. cbn [length] in Hlt.
+    destruct (c =? 33)%N.
+    { destruct (strip_prefix s_dashdash r2) as [r3|] eqn:E1.
+      - apply strip_prefix_le in E1.
+        destruct (parse_comment r3) as [[n rest]|] eqn:Ec; cbn [of_opt pbind] in H; [|discriminate].
+        apply parse_comment_rest in Ec.
+        apply pbind_fuel_last in H; [|intros [[ch' cnt'] rest']; discriminate].
+        revert H. apply IH. lia.
+      - destruct (strip_prefix s_cdata_open r2) as [r3|] eqn:E2; [|discriminate].
+        apply strip_prefix_le in E2.
+        destruct (scan_until s_cdata_end r3) as [[t rest]|] eqn:Ec;
+          cbn [of_opt pbind] in H; [|discriminate].
+        apply scan_until_le in Ec.
+        apply pbind_fuel_last in H; [|intros [[ch' cnt'] rest']; discriminate].
+        revert H. apply IH. lia. }
+    destruct (c =? 63)%N.
+    { destruct (parse_pi r2) as [[n rest]|] eqn:Ec; cbn [of_opt pbind] in H; [|discriminate].
+      apply parse_pi_rest in Ec.
+      apply pbind_fuel_last in H; [|intros [[ch' cnt'] rest']; discriminate].
+      revert H. apply IH. lia. }
+    destruct (c =? 47)%N.
+    { destruct (scan_qname r2) as [[[p l] r3]|] eqn:Eq; cbn [of_opt pbind] in H; [|discriminate].
+      destruct (skip_spaces r3) as [|d rest]; [discriminate|].
+      num_cases H d.
+      destruct (xstr_eqb p pp && xstr_eqb l pl); discriminate. }
+    destruct (parse_element_with (parse_content f) (Some sc) (c :: r2)) as [[[n c1] rest]| |] eqn:Ee;
+      cbn [pbind] in H; [|discriminate|].
+    + apply parse_element_with_rest in Ee. cbn [length] in Ee.
+      apply pbind_fuel_last in H; [|intros [[ch' cnt'] rest']; discriminate].
+      revert H. apply IH. lia.
+    + revert Ee. apply parse_element_with_fuel.
+      intros sc0 p0 l0 s0 H0. apply IH. cbn [length] in H0. lia.
+  - destruct (scan_text (b :: s')) as [[t rest]|] eqn:Et; cbn [of_opt pbind] in H; [|discriminate].
+    apply scan_text_rest in Et; [|exact Eb]. cbn [length] in Et.
+    destruct (contains s_cdata_end t); [discriminate|].
+    destruct (process_text t) as [t'|]; cbn [of_opt pbind] in H; [|discriminate].
+    apply pbind_fuel_last in H; [|intros [[ch' cnt'] rest']; discriminate].
+    revert H. apply IH. lia.
+Qed.
+
+Lemma parse_element_fuel : forall f ps s, length s <= f -> parse_element f ps s <> PFuel.
+Proof.
+  intros f ps s Hle. unfold parse_element. apply parse_element_with_fuel.
+  intros sc p l s' Hlt. apply parse_content_fuel. lia.
+Qed.
+
+Theorem parse_document_fuel : forall bytes, parse_document (S (length bytes)) bytes <> PFuel.
+Proof.
+  intros bytes H. unfold parse_document in H.
+  set (s0 := match strip_prefix s_bom bytes with Some r => r | None => bytes end) in H.
+  assert (Hs0 : length s0 <= length bytes).
+  { subst s0. destruct (strip_prefix s_bom bytes) as [r|] eqn:E; [|lia].
+    apply strip_prefix_le in E. exact E. }
+  destruct (if starts_with s_decl_open s0
+            then of_opt (parse_declaration (skipn 5 s0)) else POk s0) as [s1| |] eqn:E1;
+    cbn [pbind] in H; [|discriminate|].
+  2:{ destruct (starts_with s_decl_open s0); [|discriminate].
+      revert E1. apply of_opt_nofuel. }
+  assert (Hs1 : length s1 <= length s0).
+  { destruct (starts_with s_decl_open s0).
+    - apply of_opt_ok in E1. apply parse_declaration_length in E1.
+      rewrite skipn_length in E1. lia.
+    - inversion E1; subst. lia. }
+  clear E1.
+  destruct (parse_misc (S (length bytes)) s1) as [[pre s2]| |] eqn:Em;
+    cbn [pbind] in H; [|discriminate|].
+  2:{ revert Em. apply parse_misc_fuel. lia. }
+  apply parse_misc_rest in Em.
+  destruct (starts_with s_doctype s2); [discriminate|].
+  destruct s2 as [|c r]; [discriminate|]. cbn [length] in Em.
+  num_cases H c.
+  destruct (parse_element (S (length bytes)) None r) as [[[root cnt] s3]| |] eqn:Ee;
+    cbn [pbind] in H; [|discriminate|].
+  2:{ revert Ee. apply parse_element_fuel. lia. }
+  apply parse_element_rest in Ee.
+  destruct (parse_misc (S (length bytes)) s3) as [[post s4]| |] eqn:Em2;
+    cbn [pbind] in H; [|discriminate|].
+  - destruct (is_nil s4); discriminate.
+  - revert Em2. apply parse_misc_fuel. lia.
+Qed.
+
+Corollary xml_parse_fuel : forall bytes,
+  xml_parse bytes = Unsupported ->
+  exists d cnt, parse_document (S (length bytes)) bytes = POk (d, cnt) /\
+                (cnt <=? NS_LIMIT)%N = false.
+Proof.
+  intros bytes H. unfold xml_parse in H.
+  pose proof (parse_document_fuel bytes) as Hf.
+  destruct (parse_document (S (length bytes)) bytes) as [[d cnt]| |]; [|discriminate|congruence].
+  exists d, cnt. split; [reflexivity|].
+  destruct (cnt <=? NS_LIMIT)%N; [discriminate|reflexivity].
+Qed.
+
+(** * More fuel never changes a result that is not [PFuel] *)
+
+(** the recursive call is the first action of the rest of a [pbind] chain *)
+Ltac mono_step IH :=
+  rewrite IH; [reflexivity | lia | eapply pbind_nofuel_l; eassumption].
+
+Lemma parse_attrs_mono : forall f f' s,
+  f <= f' -> parse_attrs f s <> PFuel -> parse_attrs f' s = parse_attrs f s.
+Proof.
+  induction f as [|f IH]; intros f' s Hle H.
+  { cbn [parse_attrs] in H. congruence. }
+  destruct f' as [|f']; [lia|]. cbn [parse_attrs] in *.
+  destruct (skip_spaces s) as [|b r0]; [reflexivity|].
+  destruct (b =? 47)%N; [reflexivity|].
+  destruct (b =? 62)%N; [reflexivity|].
+  destruct (negb (starts_with_space s)); [reflexivity|].
+  destruct (scan_attribute (b :: r0)) as [[[[p l0] v] rest]|];
+    cbn [of_opt pbind] in *; [|reflexivity].
+  destruct (normalize_attr v) as [v'|]; cbn [of_opt pbind] in *; [|reflexivity].
+  mono_step IH.
+Qed.
+
+Lemma parse_misc_mono : forall f f' s,
+  f <= f' -> parse_misc f s <> PFuel -> parse_misc f' s = parse_misc f s.
+Proof.
+  induction f as [|f IH]; intros f' s Hle H.
+  { cbn [parse_misc] in H. congruence. }
+  destruct f' as [|f']; [lia|]. cbn [parse_misc] in *.
+  destruct (strip_prefix s_comment_open (skip_spaces s)) as [r0|].
+  { destruct (parse_comment r0) as [[c rest]|]; cbn [of_opt pbind] in *; [|reflexivity].
+    mono_step IH. }
+  destruct (strip_prefix s_pi_open (skip_spaces s)) as [r0|]; [|reflexivity].
+  destruct (parse_pi r0) as [[c rest]|]; cbn [of_opt pbind] in *; [|reflexivity].
+  mono_step IH.
+Qed.
+
+Lemma parse_element_with_mono : forall c1 c2 ps s,
+  (forall sc p l s', c1 sc p l s' <> PFuel -> c2 sc p l s' = c1 sc p l s') ->
+  parse_element_with c1 ps s <> PFuel ->
+  parse_element_with c2 ps s = parse_element_with c1 ps s.
+Proof.
+  intros c1 c2 ps s Hc H. unfold parse_element_with in *.
+  destruct (scan_qname s) as [[[prefix local] r0]|]; cbn [of_opt pbind] in *; [|reflexivity].
+  destruct (xstr_eqb prefix s_xmlns); [reflexivity|].
+  destruct (parse_attrs (S (length r0)) r0) as [[[raw e] rest]| |];
+    cbn [pbind] in *; try reflexivity.
+  destruct (split_attrs raw [] []) as [[own plain]|]; cbn [of_opt pbind] in *; [|reflexivity].
+  destruct (resolve_attrs (resolve_scope ps own) plain []) as [attrs|];
+    cbn [of_opt pbind] in *; [|reflexivity].
+  destruct (ns_by_prefix prefix (resolve_scope ps own)) as [ns|];
+    cbn [of_opt pbind] in *; [|reflexivity].
+  destruct e; [reflexivity|].
+  rewrite Hc; [reflexivity|]. eapply pbind_nofuel_l; eassumption.
+Qed.
+
+Lemma parse_content_mono : forall f f' sc pp pl s,
+  f <= f' -> parse_content f sc pp pl s <> PFuel ->
+  parse_content f' sc pp pl s = parse_content f sc pp pl s.
+Proof.
+  induction f as [|f IH]; intros f' sc pp pl s Hle H.
+  { cbn [parse_content] in H. congruence. }
+  destruct f' as [|f']; [lia|]. cbn [parse_content] in *.
+  destruct s as [|b s']; [reflexivity|].
+  destruct (b =? 60)%N.
+  - destruct s' as [|c r2]; [reflexivity|].
+    destruct (c =? 33)%N.
+    { destruct (strip_prefix s_dashdash r2) as [r3|].
+      - destruct (parse_comment r3) as [[n rest]|]; cbn [of_opt pbind] in *; [|reflexivity].
+        mono_step IH.
+      - destruct (strip_prefix s_cdata_open r2) as [r3|]; [|reflexivity].
+        destruct (scan_until s_cdata_end r3) as [[t rest]|]; cbn [of_opt pbind] in *; [|reflexivity].
+        mono_step IH. }
+    destruct (c =? 63)%N.
+    { destruct (parse_pi r2) as [[n rest]|]; cbn [of_opt pbind] in *; [|reflexivity].
+      mono_step IH. }
+    destruct (c =? 47)%N; [reflexivity|].
+    assert (Ee : parse_element_with (parse_content f') (Some sc) (c :: r2)
+                 = parse_element_with (parse_content f) (Some sc) (c :: r2)).
+    { apply parse_element_with_mono.
+      - intros sc0 p0 l0 s0 H0. apply IH; [lia|exact H0].
+      - eapply pbind_nofuel_l; eassumption. }
+    rewrite Ee. clear Ee.
+    destruct (parse_element_with (parse_content f) (Some sc) (c :: r2)) as [[[n c1] rest]| |];
+      cbn [pbind] in *; try reflexivity.
+    mono_step IH.
+  - destruct (scan_text (b :: s')) as [[t rest]|]; cbn [of_opt pbind] in *; [|reflexivity].
+    destruct (contains s_cdata_end t); [reflexivity|].
+    destruct (process_text t) as [t'|]; cbn [of_opt pbind] in *; [|reflexivity].
+    mono_step IH.
+Qed.
+
+Lemma parse_element_mono : forall f f' ps s,
+  f <= f' -> parse_element f ps s <> PFuel -> parse_element f' ps s = parse_element f ps s.
+Proof.
+  intros f f' ps s Hle H. unfold parse_element in *. apply parse_element_with_mono; [|exact H].
+  intros sc p l s' H0. apply parse_content_mono; [exact Hle|exact H0].
+Qed.
+
+Lemma parse_attrs_ok_mono : forall f f' s x,
+  parse_attrs f s = POk x -> f <= f' -> parse_attrs f' s = POk x.
+Proof.
+  intros f f' s x H Hle. rewrite (parse_attrs_mono f f' s Hle); [exact H|].
+  rewrite H. discriminate.
+Qed.
+
+Lemma parse_misc_ok_mono : forall f f' s x,
+  parse_misc f s = POk x -> f <= f' -> parse_misc f' s = POk x.
+Proof.
+  intros f f' s x H Hle. rewrite (parse_misc_mono f f' s Hle); [exact H|].
+  rewrite H. discriminate.
+Qed.
+
+Lemma parse_content_ok_mono : forall f f' sc pp pl s x,
+  parse_content f sc pp pl s = POk x -> f <= f' -> parse_content f' sc pp pl s = POk x.
+Proof.
+  intros f f' sc pp pl s x H Hle. rewrite (parse_content_mono f f' sc pp pl s Hle); [exact H|].
+  rewrite H. discriminate.
+Qed.
+
+Lemma parse_element_ok_mono : forall f f' ps s x,
+  parse_element f ps s = POk x -> f <= f' -> parse_element f' ps s = POk x.
+Proof.
+  intros f f' ps s x H Hle. rewrite (parse_element_mono f f' ps s Hle); [exact H|].
+  rewrite H. discriminate.
+Qed.
+
+(** errors are stable as well *)
+Lemma parse_content_err_mono : forall f f' sc pp pl s,
+  parse_content f sc pp pl s = PErr -> f <= f' -> parse_content f' sc pp pl s = PErr.
+Proof.
+  intros f f' sc pp pl s H Hle. rewrite (parse_content_mono f f' sc pp pl s Hle); [exact H|].
+  rewrite H. discriminate.
+Qed.
+
+Lemma parse_element_err_mono : forall f f' ps s,
+  parse_element f ps s = PErr -> f <= f' -> parse_element f' ps s = PErr.
+Proof.
+  intros f f' ps s H Hle. rewrite (parse_element_mono f f' ps s Hle); [exact H|].
+  rewrite H. discriminate.
+Qed.
+
+(** * The document: any fuel above the length of the input gives the same result *)
+
+Lemma parse_document_mono : forall f f' bytes,
+  f <= f' -> parse_document f bytes <> PFuel -> parse_document f' bytes = parse_document f bytes.
+Proof.
+  intros f f' bytes Hle H. unfold parse_document in *.
+  set (s0 := match strip_prefix s_bom bytes with Some r => r | None => bytes end) in *.
+  destruct (if starts_with s_decl_open s0
+            then of_opt (parse_declaration (skipn 5 s0)) else POk s0) as [s1| |];
+    cbn [pbind] in *; try reflexivity.
+  rewrite (parse_misc_mono f f' s1 Hle); [|eapply pbind_nofuel_l; eassumption].
+  destruct (parse_misc f s1) as [[pre s2]| |]; cbn [pbind] in *; try reflexivity.
+  destruct (starts_with s_doctype s2); [reflexivity|].
+  destruct s2 as [|c r]; [reflexivity|].
+  destruct (N.eq_dec c 60) as [->|Hc].
+  - rewrite (parse_element_mono f f' None r Hle); [|eapply pbind_nofuel_l; eassumption].
+    destruct (parse_element f None r) as [[[root cnt] s3]| |]; cbn [pbind] in *; try reflexivity.
+    rewrite (parse_misc_mono f f' s3 Hle); [reflexivity|eapply pbind_nofuel_l; eassumption].
+  - clear H. destruct c as [|q]; [reflexivity|].
+    do 6 (destruct q as [q|q|]; try reflexivity). congruence.
+Qed.
+
+Corollary parse_document_any_fuel : forall f bytes,
+  length bytes < f -> parse_document f bytes = parse_document (S (length bytes)) bytes.
+Proof.
+  intros f bytes Hlt. apply parse_document_mono; [lia|]. apply parse_document_fuel.
+Qed.
